@@ -237,13 +237,13 @@ theorem rank_ack {s : Sys} (I : Inv s) (g : Nat) (cl : Cls) (j : Nat) :
 /-! ## a busy GPU can move -/
 
 theorem t1_hCtrl_true {c : Cp} {x : Cmd} {rest : List Cmd} {rq gq : Bool} (hf : c.fault = none)
-    (hd : c.drvIn = x :: rest) (hs : c.shoot = false) (hp : Pre x rq gq) : (Cp.hCtrl c).2 = true := by
+    (hd : c.drvIn = x :: rest) (hs : c.shoot = false) (hn : c.numCache = 0) (hp : Pre x rq gq) : (Cp.hCtrl c).2 = true := by
   unfold Cp.hCtrl
   rw [if_neg (by simp [hf])]
   cases x with
   | drain => simp only [hd]; split <;> rfl
   | rdmaRestart => simp only [hd]
-  | shoot id => simp [hd, hs]
+  | shoot id => simp [hd, hs, hn]
   | restart => simp only [hd]; split <;> rfl
   | mig id => simp only [hd]; split <;> rfl
   | flush f => exact hp.elim
@@ -305,7 +305,7 @@ theorem busy_enabled {x : Cmd} {loc : BLoc} {rq gq : Bool} {c : Cp} {m : Comps} 
   | cmd =>
     obtain ⟨hcp, _, _⟩ := h'
     left
-    exact ⟨1, t1_hCtrl_true (c := c) (fld Cp.fault hcp rfl) (fld Cp.drvIn hcp rfl) (fld Cp.shoot hcp rfl) pre⟩
+    exact ⟨1, t1_hCtrl_true (c := c) (fld Cp.fault hcp rfl) (fld Cp.drvIn hcp rfl) (fld Cp.shoot hcp rfl) (fld Cp.numCache hcp rfl) pre⟩
   | tok cl k =>
     obtain ⟨O, P, I, C, g⟩ := h'
     cases O with
